@@ -202,6 +202,12 @@ func genGroup(c *cf.Case, r *cf.Rng, prop string) {
 		}
 		c.Faults = append(c.Faults, f)
 	}
+	if r.Intn(12) == 0 {
+		// the group's coordinator goes away for good (no broker takes the group over): every group request is answered
+		// NOT_COORDINATOR and every coordinator look-up COORDINATOR_NOT_AVAILABLE from then on - Consume keeps failing,
+		// Close must still return
+		c.Faults = append(c.Faults, cf.Fault{When: cf.When{AtUs: int64(r.Range(1000, int(end)))}, Do: "coordinator-move", To: 99})
+	}
 	if r.Intn(8) == 0 && len(c.Cluster.Topics) > 0 {
 		// a partition whose offsets cannot be looked up when its claim is started (first try and the retry
 		// after the metadata refresh): the claim cannot start, which ends the session
